@@ -60,7 +60,9 @@ def _gen_list(r, wrapper_free, nv, shared_blocks=None, shared_wrapped=None):
     def const():
         if nv:
             return r.choice([["i", 4], ["f", "4.0"], ["i", 2], ["f", "2.0"]])
-        return ["i", r.choice([2, 3, 5, 7, -1, -2])]   # -1 and -2 hash alike in CPython
+        # -1 and -2 hash alike in CPython; a zero now and then (0*x, 0/x are expressions
+        # that are "false" although their value need not be 0: x may be inf, nan, an array)
+        return ["i", r.choice([2, 3, 5, 7, -1, -2, 2, 3, 5, 7, -1, -2, 0])]
 
     def leaf():
         return ["n", "Variable", [["s", r.choice(vars_)]]] if r.random() < 0.7 else const()
@@ -199,7 +201,7 @@ def _gen_vars(r):
     # a variable is zero now and then: wrappers whose value is falsy (0) are still values;
     # more rarely one is not-a-number (min/max keep their first operand then)
     return {v: (["fr", 0, 1] if r.random() < 0.2 else
-                ["f", "nan"] if r.random() < 0.08 else
+                ["f", r.choice(["nan", "nan", "inf"])] if r.random() < 0.1 else
                 ["fr", r.randint(1, 9), r.choice([1, 1, 2, 3])])
             for v in ["a", "b", "c", "d"]}
 
@@ -362,8 +364,12 @@ def _values_agree(a, b, any_dtype=False):
             fa, fb = a.astype("float64"), b.astype("float64")
             close = np.abs(fa - fb) <= 1e-9 * np.maximum(1.0, np.maximum(np.abs(fa), np.abs(fb)))
             return bool(np.all((fa == fb) | (np.isnan(fa) & np.isnan(fb)) | close))
+    if callable(a) and callable(b):
+        return type(a) is type(b)   # a bare function name evaluates to the context's function
     if isinstance(a, float) and isinstance(b, float) and a != a and b != b:
         return True        # both not-a-number
+    if isinstance(a, float) and isinstance(b, float) and a == b:
+        return True        # (also: the same infinity)
     if isinstance(a, float) or isinstance(b, float):
         try:
             fa, fb = float(a), float(b)
@@ -371,6 +377,25 @@ def _values_agree(a, b, any_dtype=False):
             return False
         return abs(fa - fb) <= 1e-9 * max(1.0, abs(fa), abs(fb))
     return type(a) is type(b) and a == b
+
+
+def fold_false_wrappers(e, p):
+    """Executable model of the known finding `identity-mapper-folds-false-wrapper`: what an
+    IdentityMapper-derived mapper (the histogram tagger is one) does to pre-existing wrappers:
+    a wrapper whose (mapped) child is "false" as an expression -- a product with a zero
+    factor, a quotient with a zero numerator -- is replaced by the integer 0."""
+    import dataclasses
+    if isinstance(e, p.CommonSubexpression):
+        ch = fold_false_wrappers(e.child, p)
+        if p.is_zero(ch):
+            return 0
+        return e if ch is e.child else type(e)(ch, e.prefix, e.scope)
+    if isinstance(e, p.Expression) and dataclasses.is_dataclass(e):
+        vals = [fold_false_wrappers(getattr(e, f.name), p) for f in dataclasses.fields(e)]
+        return type(e)(*vals)
+    if isinstance(e, tuple):
+        return tuple(fold_false_wrappers(x, p) for x in e)
+    return e
 
 
 def execute(scenario, open_sigs):
@@ -436,6 +461,8 @@ def execute(scenario, open_sigs):
         e.obj = cls(make_ctx(desc, e.sim, e.log))
         e.label = f"ev{k}"
         e.uncached = {}     # wrapper key -> started uncached computations
+        e.child_runs = {}   # (owning wrapper, child key) -> computations of the child
+        e.child_allow = {}
         e.allow = {}
         e.reached = set()
         e.faulted = False
@@ -535,9 +562,34 @@ def execute(scenario, open_sigs):
         keys.sort()
         return util.digest_of(keys)[:10]
 
+    def folded_wrapper_explains(got, tag, orig_expr):
+        """only for the histogram tagger (an IdentityMapper): the outcome is what plain
+        evaluation of the input gives once its "false" pre-existing wrappers are the integer 0"""
+        if tag[0] != "tagged2" or nv:
+            return False
+        try:
+            folded = fold_false_wrappers(orig_expr, p)
+        except Exception:  # noqa: BLE001
+            return False
+        if canon(folded) == canon(orig_expr):
+            return False
+        mo = reference(cur_desc[0], folded)
+        if got[0] == "ok" and mo[0] == "ok":
+            same = _values_agree(got[1], mo[1])
+        else:
+            same = got[0] == mo[0] and type(got[1]) is type(mo[1])
+        return same and kf(
+            "identity-mapper-folds-false-wrapper",
+            "IdentityMapper.map_common_subexpression (inherited by cse_tagger.CSETagMapper) "
+            "replaces a pre-existing wrapper whose child is 'false' as an expression (0*x, 0/x) "
+            "by the integer 0: the value differs when x is nan, inf, an array, or raises (D14)")
+
+    cur_desc = [None]
+
     def do_eval(e, expr, desc_for_ref, orig_expr, fault, tag, in_thread=False):
         """Evaluate expr on evaluator e; compare with plain evaluation of orig_expr."""
         nonlocal wrappers_evaluated
+        cur_desc[0] = e.desc
         want = reference(e.desc, orig_expr)
         e.sim.disarm()
         fired0 = e.sim.fired
@@ -596,6 +648,26 @@ def execute(scenario, open_sigs):
                 if n > 1 + e.allow.get(c.key, 0):
                     viol("C12/wrapper-computed-twice",
                          {"evaluator": e.desc, "wrapper": c.key[:500], "count": n, "what": tag})
+        # the child of a wrapper, computed on behalf of that wrapper (directly, or through a
+        # chain of wrappers directly around it): once per distinct wrapper, however it is reached
+        live = obs.frames_of_traceback(got[1]) if got[0] != "ok" else ()
+        for c in comps:
+            pc = c.parent
+            if pc is None or pc.handler != "map_common_subexpression_uncached" \
+                    or c.handler.startswith("map_common_subexpression"):
+                continue
+            owner = pc.expr
+            while isinstance(getattr(owner, "child", None), p.CommonSubexpression):
+                owner = owner.child
+            ok_ = jkey([canon(owner, obs.memo), c.key])
+            n = e.child_runs[ok_] = e.child_runs.get(ok_, 0) + 1
+            if c.frame is not None and id(c.frame) in live:
+                e.child_allow[ok_] = e.child_allow.get(ok_, 0) + 1
+            elif n > 1 + e.child_allow.get(ok_, 0) and not nv:
+                viol("C12/wrapper-computed-twice",
+                     {"evaluator": e.desc, "wrapper": str(canon(owner, obs.memo))[:400],
+                      "child_runs": n, "what": tag,
+                      "reached_through": str(canon(pc.expr, obs.memo))[:300]})
         if hit_before:
             probe("post_fault_cache_hits")
         if got[0] == "ok" and not nv:
@@ -626,11 +698,14 @@ def execute(scenario, open_sigs):
                         "x+4 and x+4.0 are merged by the tagger / share one CSE cache entry: "
                         "the value comes back with the other constant's type (D1)"):
                     pass
+                elif folded_wrapper_explains(got, tag, orig_expr):
+                    pass
                 else:
                     viol("C12/value-differs", det)
         elif got[0] != want[0] or (got[0] == "exc" and type(got[1]) is not type(want[1])):
-            viol("C12/outcome-differs", {"what": tag, "got": [got[0], type(got[1]).__name__],
-                                         "want": [want[0], type(want[1]).__name__]})
+            if not folded_wrapper_explains(got, tag, orig_expr):
+                viol("C12/outcome-differs", {"what": tag, "got": [got[0], type(got[1]).__name__],
+                                             "want": [want[0], type(want[1]).__name__]})
         states.add(cache_sig(e))
         ccd = getattr(e.obj, "_cse_cache_dict", None)
         if ccd and any(isinstance(v, (int, float, Fraction)) and v == 0 for v in ccd.values()):
